@@ -97,3 +97,11 @@ CHECKS["C16"] = dict(level="model_checking", technique="TLA+ CsvIO.tla (AppendOn
     text="AppendOnly and InsertCost are invariants of the insert program in CsvIO.tla. Binding: I/O calls of inserts recorded on databases of 0-3000 rows, in and out of time order, auto_index on/off, "
          "after reads that left the file position mid-file; TLC requires only seek / write-at-end / flush / fsync / truncate-at-end, the old bytes as a prefix at every boundary, no read, a bounded "
          "number of calls per point; the harness additionally requires equal call counts for small and large databases.", note=_IO_NOTE, design_ref="DESIGN.md section 5, C16")
+CHECKS["C05"] = dict(level="model_checking", technique="TLA+ format model Codec.tla checked by TLC over a reserved-word universe; universe round-tripped through the real CSVStorage; written rows judged by TLC against Ser/De",
+    text="Codec.tla states the row layout at character level (prefixes, prefix sniffing by position, the '_none' sentinel); TLC checks De(Ser(p)) = p for every point of a universe built from "
+         "the reserved words, prefixes, their fragments and the empty string in every string slot, both prefix styles, and shows the sentinel collision as a counterexample of the format itself. "
+         "Every universe point is written through the real CSVStorage, reopened and compared (tags stay tags, fields stay fields, -0.0/inf/subnormals kept, injectivity); the raw rows the real "
+         "serializer wrote are judged by TLC (row = Ser(p), De(row) = p); the same round trip - also through the live instance after a rewrite - runs on seeded random points "
+         "(Unicode incl. delimiters, quotes, CR/LF, NUL, astral; float64 bit patterns; ints to 2^70; microsecond instants 1700-2240; four dialects).",
+    note="float64, Unicode and datetimes are SAMPLED, not enumerated - a TLA+ model cannot usefully quantify over them; the model contributes the format, the reserved-word universe and the oracle. NaN excluded.",
+    design_ref="DESIGN.md section 5, C05")
